@@ -1,6 +1,8 @@
 import FxVerif.Proofs.C06
 import FxVerif.Proofs.C05Ext
 import FxVerif.Proofs.C05Prompt
+import FxVerif.Proofs.C05Sol
+import FxVerif.Props.C01
 /-!
 # C06 — outgoing value is released only once the external chain can no longer run it
 
@@ -159,6 +161,7 @@ theorem created_after_observation (s0 : State) (h0 : IsInit s0) (ops : List Op) 
   have ht := T_run (s := s0) ht0 ops
   have hn := N_run (N_init h0) ops
   rw [runExt_fst] at hn
+  rw [runExt_eq]
   exact ⟨ht.batches, ht.calls, fun b hb => ht.batches b (hn.sub b hb), fun c hc => ht.calls c (hn.csub c hc)⟩
 
 /-- `refund_excludes_execution`, batches.  A batch cancelled for time-out at the observation of an event at external
@@ -247,8 +250,9 @@ theorem released_means_no_longer_executable (s0 : State) (h0 : IsInit s0) (ops :
     let x := (runExt s0 {} ops).2
     (∀ b ∈ x.created, b ∉ s.batches → ∀ h, ¬ admissible x (.observe h (.batch b.token b.nonce))) ∧
     (∀ c ∈ x.createdCalls, c ∉ s.calls → ∀ h ok, ¬ admissible x (.observe h (.result c.nonce ok))) := by
-  have hj := J_run (J_init h0) ops ha
+  have hj := J_run (J_init h0) ops ((admissibleRun_iff _ _ _).mp ha)
   rw [runExt_fst] at hj
+  rw [runExt_eq]
   have hs1 : solBatchNonceCmp = .lt := by decide
   have hs2 : solBatchTimeoutCmp = .lt := by decide
   have hs3 : solCallTimeoutCmp = .lt := by decide
@@ -256,15 +260,15 @@ theorem released_means_no_longer_executable (s0 : State) (h0 : IsInit s0) (ops :
   simp only
   constructor
   · intro b hb hnot h hadm
-    obtain ⟨hh, b', hb', ht, hn, hnonce, htime⟩ := hadm
-    have hnd : (((runExt s0 {} ops).2.created).map (·.nonce)).Nodup := by rw [hj.nonces]; exact nodup_range'
+    obtain ⟨hh, b', hb', ht, hn, hnonce, htime⟩ := (admissible_iff _ _).mp hadm
+    have hnd : (((runExtStd s0 {} ops).2.created).map (·.nonce)).Nodup := by rw [hj.nonces]; exact nodup_range'
     have heq : b' = b := nodup_map_inj (fun b : Batch => b.nonce) _ hnd b' hb' b hb hn
     subst heq
     simp only [hs1, hs2, Cmp.eval, decide_eq_true_eq] at hnonce htime
     exact hnot (hj.batches b' hb' hnonce (by omega))
   · intro c hc hnot h ok hadm
-    obtain ⟨hh, c', hc', hn, hdone, htime⟩ := hadm
-    have hnd : (((runExt s0 {} ops).2.createdCalls).map (·.nonce)).Nodup := by rw [hj.cnonces]; exact nodup_range'
+    obtain ⟨hh, c', hc', hn, hdone, htime⟩ := (admissible_iff _ _).mp hadm
+    have hnd : (((runExtStd s0 {} ops).2.createdCalls).map (·.nonce)).Nodup := by rw [hj.cnonces]; exact nodup_range'
     have heq : c' = c := nodup_map_inj (fun c : Call => c.nonce) _ hnd c' hc' c hc hn
     subst heq
     simp only [hs3, Cmp.eval, decide_eq_true_eq] at htime
@@ -277,7 +281,7 @@ theorem admissible_event_finds_record (s0 : State) (h0 : IsInit s0) (ops : List 
     (doObserve (run s0 ops) h ev).2 ≠ .panic ∧
     (∀ t n, ev = .batch t n → ∃ b ∈ (run s0 ops).batches, b.token = t ∧ b.nonce = n) ∧
     (∀ c ok, ev = .result c ok → ∃ cl ∈ (run s0 ops).calls, cl.nonce = c) := by
-  obtain ⟨ha1, ha2⟩ := admissibleRun_append ha
+  obtain ⟨ha1, ha2⟩ := admissibleRun_append ((admissibleRun_iff _ _ _).mp ha)
   have hj := J_run (J_init h0) ops ha1
   rw [runExt_fst] at hj
   have hs3 : solCallTimeoutCmp = .lt := by decide
@@ -316,11 +320,7 @@ theorem executed_never_refunded_call_partial (s : State) (h : Nat) (ev : Ev)
   have e1 : batchCleanupSrc = .observedExternal := by decide
   have e2 : callCleanupSrc = .observedExternal := by decide
   have hsol : solCallTimeoutCmp = .lt := by decide
-  have hobs : ∀ s2 : State, (cleanupCalls (cleanupBatches s2)).obsSuccess = s2.obsSuccess := by
-    intro s2
-    unfold cleanupCalls
-    simp only [foldl_refundCall_obsSuccess]
-    rfl
+  have hobs : ∀ s2 : State, (cleanupCalls (cleanupBatches s2)).obsSuccess = s2.obsSuccess := cleanup_obsSuccess
   intro c hc
   have hmem : c ∈ s.calls := by
     rw [(call_release_rule h s.calls).1] at hc
@@ -357,9 +357,143 @@ hypothesis cannot be dropped. -/
 theorem executed_never_refunded_call_run_partial (s0 : State) (h0 : IsInit s0) (ops : List Op)
     (ha : AdmissibleRun s0 {} ops) (hp : PromptRun s0 ops) :
     ∀ e ∈ (run s0 ops).settled, e.isCall = true → e.how = .refunded → e.id ∉ (run s0 ops).obsSuccess := by
-  have hk := K_run (K_init h0) (J_init h0) (inv_init h0) ops ha hp
+  have hk := K_run (K_init h0) (J_init h0) (inv_init h0) ops ((admissibleRun_iff _ _ _).mp ha) hp
   rw [runExt_fst] at hk
   exact hk.k1
+
+/-! ## round 3: the bridge contract's submit functions, interpreted; the event order of C01 -/
+
+/-- the statement lists of `submitBatch` / `submitBridgeCall` / `checkOracleSignatures` as regenerated from
+`FxBridgeLogic.sol` now (`verifySubmitBridgeCall` inlined): which `require`s there are, in which order, and that every
+check — including the signature / power-threshold check — comes before the state update, which comes before the first
+value-moving statement (checks, then effects, then interactions) -/
+theorem solidity_programs :
+    solSubmitBatch.filter (fun st => match st with | .requireOther _ => false | _ => true) =
+      [.require .lastNonce .lt .nonce, .require .blockNumber .lt .timeout, .checkSignatures, .setLastNonce, .moveValue] ∧
+    solSubmitBridgeCall.filter (fun st => match st with | .requireOther _ => false | _ => true) =
+      [.requireNot .nonceUsed, .require .blockNumber .lt .timeout, .checkSignatures, .setNonceUsed, .moveValue] ∧
+    solCheckSignatures.getLast? = some (.require .power .gt .threshold) ∧
+    solSubmitBatch.getLast? = some .moveValue ∧ solSubmitBridgeCall.getLast? = some .moveValue := by decide
+
+/-- what the INTERPRETED `submitBatch` does, for every contract state and submission: it reverts unless
+`state_lastBatchNonces[token] < nonce` and `block.number < timeout`; otherwise it ends having recorded the nonce and moved
+value — so a replay of the same or an older nonce, and any submission at or after the timeout height, reverts -/
+theorem interpreted_submitBatch (st : SolSt) :
+    (solRun solSubmitBatch st).isSome = true ↔ st.lastNonce < st.nonce ∧ st.blockNumber < st.timeout :=
+  by rw [solRun_batch]; split <;> simp_all
+
+theorem interpreted_submitBatch_effect (st st' : SolSt) (h : solRun solSubmitBatch st = some st') :
+    st'.lastNonce = st.nonce ∧ st'.moved = true ∧ (solRun solSubmitBatch { st' with moved := false }).isSome = false := by
+  rw [solRun_batch] at h
+  split at h
+  · cases h
+    refine ⟨rfl, rfl, ?_⟩
+    rw [solRun_batch]
+    simp
+  · cases h
+
+/-- the same for the INTERPRETED `submitBridgeCall`: accepted iff the nonce is unused and `block.number < timeout`;
+afterwards the nonce is used, so the same bridge call can never be run twice -/
+theorem interpreted_submitBridgeCall (st : SolSt) :
+    (solRun solSubmitBridgeCall st).isSome = true ↔ st.nonceUsed = false ∧ st.blockNumber < st.timeout :=
+  by rw [solRun_call]; split <;> simp_all
+
+theorem interpreted_submitBridgeCall_effect (st st' : SolSt) (h : solRun solSubmitBridgeCall st = some st') :
+    st'.nonceUsed = true ∧ st'.moved = true ∧ (solRun solSubmitBridgeCall { st' with moved := false }).isSome = false := by
+  rw [solRun_call] at h
+  split at h
+  · cases h
+    refine ⟨rfl, rfl, ?_⟩
+    rw [solRun_call]
+    simp
+  · cases h
+
+/-- the environment hypothesis of the history theorems is about the interpreted contract: an observed event is
+`admissible` (the interpreted submit function does not revert) iff it satisfies the closed-form rules, and the ghost's
+contract state moves as the interpreted program moves it -/
+theorem admissible_is_interpreted (s : State) (x : Ext) (op : Op) (ops : List Op) :
+    (admissible x op ↔ admissibleStd x op) ∧ x.next s op = x.nextStd s op ∧
+    (AdmissibleRun s x ops ↔ AdmissibleRunStd s x ops) :=
+  ⟨admissible_iff x op, next_eq x s op, admissibleRun_iff s x ops⟩
+
+/-- `refund_excludes_execution` against the interpreted contract: a batch cancelled for time-out at observed height `h`
+makes `submitBatch` revert at every block `h' ≥ h`, whatever the contract's nonce state; a bridge call refunded for
+time-out at `h` makes `submitBridgeCall` revert at every `h' ≥ h` -/
+theorem refund_excludes_execution_interpreted (h h' last : Nat) (used : Bool) (hmono : h ≤ h') :
+    (∀ b : Batch, batchExpired h b = true → solRun solSubmitBatch ⟨h', b.timeout, last, b.nonce, false, false⟩ = none) ∧
+    (∀ (cs : List Call) (c : Call), c ∈ expiredCalls h cs →
+      solRun solSubmitBridgeCall ⟨h', c.timeout, 0, c.nonce, used, false⟩ = none) := by
+  constructor
+  · intro b hb
+    have := (batch_release_rule h b).mp hb
+    rw [solRun_batch, if_neg]
+    simp only; omega
+  · intro cs c hc
+    rw [(call_release_rule h cs).1] at hc
+    have := mem_takeWhile_true _ _ _ hc
+    simp only [decide_eq_true_eq] at this
+    rw [solRun_call, if_neg]
+    simp only; omega
+
+/-- non-vacuity: an accepted batch submission, its replay rejected; a bridge call at its last block, one block later -/
+example : (solRun solSubmitBatch ⟨10, 11, 0, 1, false, false⟩).isSome = true ∧
+    (solRun solSubmitBatch ⟨10, 11, 1, 1, false, false⟩).isSome = false ∧
+    (solRun solSubmitBridgeCall ⟨10, 11, 0, 1, false, false⟩).isSome = true ∧
+    (solRun solSubmitBridgeCall ⟨11, 11, 0, 1, false, false⟩).isSome = false := by decide
+
+/-- **Event order, discharged by C01.**  The history theorems above take the observed events in the order fxcore applies
+them and assume their heights do not decrease.  That the order of application IS the external chain's event-nonce order
+is C01's theorem (`observedLog_contiguous`): along every history of votes, bondings, slashings and deferred executions
+(the C01 model of `Attest`/`TryAttestation`), the nonces of the applied events are exactly `1, 2, …, lastObserved`, in this
+order.  So for every external chain whose block height is non-decreasing in its own event nonce (`block.number` never
+decreases, `state_lastEventNonce` grows by one per event — a fact about the external chain alone), the heights of the
+events in the order fxcore applies them are non-decreasing: the `hmono` of `refund_excludes_execution` and the height part
+of `AdmissibleRun` hold for the composed system.  What is left as an assumption is only the external chain's own
+monotonicity. -/
+theorem event_order_from_C01 (p : FxVerif.Model.C01.Params) (ops : List FxVerif.Model.C01.Op) (extHeight : Nat → Nat)
+    (hext : ∀ i j, i ≤ j → extHeight i ≤ extHeight j) :
+    let applied := (FxVerif.Props.C01.reach p ops).observedLog.map Prod.fst
+    applied = List.range' 1 (FxVerif.Props.C01.reach p ops).lastObserved ∧
+    (applied.map extHeight).Pairwise (· ≤ ·) := by
+  have hc := FxVerif.Props.C01.observedLog_contiguous p ops
+  simp only
+  refine ⟨hc, ?_⟩
+  rw [hc, pairwise_map]
+  exact (pairwise_lt_range' (s := 1) (n := (FxVerif.Props.C01.reach p ops).lastObserved)).imp
+    (fun {a b} hab => hext a b (Nat.le_of_lt hab))
+
+/-- the C05 model applies events in that same order: the k-th successful observation carries event nonce k — `observe`
+answers `eventNonce + 1` and advances the counter by exactly one, a failed one (panic) leaves it alone -/
+theorem observe_applies_next_nonce (s : State) (h : Nat) (ev : Ev) :
+    ((doObserve s h ev).2 = .ok (s.eventNonce + 1) ∧ (doObserve s h ev).1.eventNonce = s.eventNonce + 1) ∨
+    ((doObserve s h ev).2 = .panic ∧ (doObserve s h ev).1 = s) := by
+  rw [doObserve_eq]
+  unfold doObserveStd
+  simp only
+  cases hh : handleEvent { s with eventNonce := s.eventNonce + 1, obsExt := h, obsFx := s.fxHeight } ev with
+  | none => exact Or.inr ⟨rfl, rfl⟩
+  | some s2 =>
+    left
+    refine ⟨rfl, ?_⟩
+    show (cleanupCalls (cleanupBatches s2)).eventNonce = _
+    have h2 : s2.eventNonce = s.eventNonce + 1 := by
+      cases ev with
+      | other => cases hh; rfl
+      | result c ok => cases hh; rfl
+      | batch t n =>
+        simp only [handleEvent] at hh
+        split at hh
+        · cases hh
+        · cases hh; simp [executeBatch, cancelBatches]
+    obtain ⟨fm, hfm⟩ := cleanupCalls_core (cleanupBatches s2)
+    rw [hfm]
+    unfold cleanupCallsCore
+    show (foldl refundCall _ _).eventNonce = _
+    rw [foldl_refundCall_eventNonce]
+    simpa [cleanupBatches, cancelBatches] using h2
+
+/-- non-vacuity of the composition: the C01 demo history applies its events in order -/
+example : ((FxVerif.Props.C01.reach {} []).observedLog.map Prod.fst) = [] := by decide
 
 /-- non-vacuity of `PromptRun` together with `AdmissibleRun`: a bridge call is created, its successful result observed
 and applied, a later event passes the timeout -/
